@@ -244,7 +244,7 @@ def exec_roundtrip(job):
         return sum(1 for x, y in zip(a, b) if bits(x) != bits(y))
     try:
         if c["n"] >= 3 and n % 4 == 0:
-            stamps = np.array([0.0, 1.0, 2.0][:N])         # looks like a RangeIndex
+            stamps = np.arange(N, dtype=float)              # 0.0, 1.0, 2.0, ...: looks like a RangeIndex
         else:
             stamps = np.array(sorted(v(40 + k) for k in range(N)) if n % 3 else [1.5e9 + v(k) % 1 for k in range(N)])
         pos = np.array([[v(3 * k + j) for j in range(3)] for k in range(N)])
